@@ -67,6 +67,11 @@ def cases(tier, seed, shard, nshards):
                     raising = any("raise" in x for x in seq)
                     for exc in (excs if raising and n < 3 else [excs[idx % len(excs)]]):
                         yield {"kind": "sync_seq", "seq": list(seq), "wrap": wrap, "susp": idx % 2, "exc": exc}
+    for pattern in RELATED:
+        for order in ([0, 1], [1, 0]):
+            idx += 1
+            if idx % nshards == shard:
+                yield {"kind": "sync_related", "pattern": pattern, "order": order}
     for flav in ("def", "async_def", "partial", "callobj", "lambda_awaitable", "def_raises", "async_raises",
                  "callobj_plain", "notcallable", "awaitable_value", "lambda_awaitable_raises", "callobj_raises",
                  "awaitable_value_raises", "partial_raises"):
@@ -767,7 +772,92 @@ def run_sync_seq(case, stats):
     return {"violations": viols, "nontrivial": len(set(seq)) > 1, "sig": tuple(sorted(case.items(), key=str))}
 
 
+RELATED = ["wraps_copy", "object_copy", "bound_after_function", "function_after_bound", "subclass_callobj",
+           "same_twice", "partial_of_wrapped", "two_instances"]
+
+
+def run_sync_related(case, stats):
+    """sync() applied to SEVERAL related callables, one after the other: each wrapper calls the callable it was made
+    for.  The second callable may carry whatever the first one carries - a copied ``__dict__`` (functools.wraps,
+    copy.copy), a shared ``__func__`` (bound method after its function), a base class."""
+    import copy
+    CTX.reset()
+    pattern, order = case["pattern"], case["order"]
+    viols = []
+
+    def impl_a(x):
+        return ("a", x)
+
+    def impl_b(x):
+        return ("b", x)
+
+    class Scale:
+        def __init__(self, factor):
+            self.factor = factor
+
+        def __call__(self, x):
+            return ("scale", self.factor, x)
+
+        def method(self, x):
+            return ("method", self.factor, x)
+
+    class Scale2(Scale):
+        def __call__(self, x):
+            return ("scale2", self.factor, x)
+
+    if pattern == "wraps_copy":
+        first, second = impl_a, functools.wraps(impl_a)(impl_b)
+        want = [("a", 5), ("b", 5)]
+    elif pattern == "object_copy":
+        first = Scale(2)
+        second = copy.copy(first)
+        second.factor = 3
+        want = [("scale", 2, 5), ("scale", 3, 5)]
+    elif pattern == "bound_after_function":
+        obj = Scale(4)
+        first, second = functools.partial(Scale.method, obj), obj.method
+        first = Scale.method
+        want = [None, ("method", 4, 5)]
+    elif pattern == "function_after_bound":
+        obj = Scale(4)
+        first, second = obj.method, Scale(6).method
+        want = [("method", 4, 5), ("method", 6, 5)]
+    elif pattern == "subclass_callobj":
+        first, second = Scale(1), Scale2(1)
+        want = [("scale", 1, 5), ("scale2", 1, 5)]
+    elif pattern == "same_twice":
+        first = second = impl_a
+        want = [("a", 5), ("a", 5)]
+    elif pattern == "partial_of_wrapped":
+        first, second = impl_a, functools.partial(impl_a)
+        want = [("a", 5), ("a", 5)]
+    else:
+        first, second = Scale(7), Scale(8)
+        want = [("scale", 7, 5), ("scale", 8, 5)]
+    pair = [first, second]
+    wrapped = [None, None]
+    for i in (order if order == [0, 1] else [1, 0]):
+        wrapped[i] = A.sync(pair[i])
+    for i in (0, 1):
+        if want[i] is None:
+            continue  # (an unbound method called without its instance is not part of the scenario)
+        try:
+            got = drive(_await(wrapped[i](5)))
+        except BaseException as exc:  # noqa: BLE001
+            got = ("raised", type(exc).__name__, str(exc)[:80])
+        if got != want[i]:
+            viols.append({"key": "sync/wrapper-of-another-callable",
+                          "msg": f"sync() of two related callables ({pattern}, wrapped in order {order}): calling the wrapper of "
+                                 f"#{i} gave {got!r}, the callable itself gives {want[i]!r}"})
+    if CTX.foreign:
+        viols.append({"key": "sync/foreign-suspension", "msg": CTX.foreign[0]})
+    stats["sync_related_callables_runs"] += 1
+    return {"violations": viols, "nontrivial": True, "sig": ("sync_related", pattern, str(order))}
+
+
 def run_case(case, stats: Counter):
+    if case["kind"] == "sync_related":
+        return run_sync_related(case, stats)
     return {"any_iter": run_any_iter, "await_each": run_await_each, "apply": run_apply, "sync": run_sync,
             "sync_seq": run_sync_seq, "any_iter_fault": run_any_iter_fault,
             "await_each_fault": run_await_each_fault}[case["kind"]](case, stats)
